@@ -6,11 +6,12 @@ set -u
 export GOFLAGS=-mod=mod GOPROXY=off GOSUMDB=off GOTOOLCHAIN=local
 P=$1; WT=$2; N=$3; shift 3
 SRC=$WT/deliver/change$N
-DST=/verif/seeded/$P-$N
+DN=${DSTN:-$N}   # DSTN: store under another index (second-round agents deliver change1/change2 again)
+DST=/verif/seeded/$P-$DN
 [ -f $SRC/patch.diff ] || { echo "no patch at $SRC"; exit 2; }
 rm -rf $DST; mkdir -p $DST
 cp -r $SRC/* $DST/
-SCR=/tmp/seedscr-$P-$N
+SCR=/tmp/seedscr-$P-$DN
 git -C /repo worktree remove --force $SCR 2>/dev/null; rm -rf $SCR
 git -C /repo worktree add -q --detach $SCR HEAD || exit 2
 mkdir -p $SCR/deliver/change$N && cp -r $SRC/* $SCR/deliver/change$N/
@@ -36,7 +37,7 @@ res "demo on pristine current tree: exit $PR"
 res "with change: build exit $B, pinned tests exit $T, demo exit $CH"
 # now our checks, against the scratch copy (patch still applied there); /repo is not touched
 ( cd $SCR && rm -rf server/zz_seed_demo_test.go deliver )
-ALTD=/tmp/seedalt-$P-$N; rm -rf $ALTD; mkdir -p $ALTD
+ALTD=/tmp/seedalt-$P-$DN; rm -rf $ALTD; mkdir -p $ALTD
 for Q in $P "$@"; do
   ( cd /verif && VERIF_REPO=$SCR VERIF_ALT=$ALTD timeout 1500 ./check $Q > $DST/check_$Q.log 2>&1 ); C=$?
   res "./check $Q against the change: exit $C  $(grep -c '^VIOLATION' $DST/check_$Q.log) violation lines; first: $(grep -m1 'check=' $DST/check_$Q.log | cut -c1-260)"
